@@ -161,13 +161,16 @@ def part_b(run, count, cycles):
 
 def check(run):
     if run.tier == 'quick':
-        recs = c05.mc_edge(run, 'g1', N=2, P=1, WD=1, shapes=['Reg', 'RegE', 'Not'], rvs=[0, 1], gated=True,
-                           invecs=[[0], [1]], cycles=3, maxn=2, mod=4)
-        c05.replay_records(run, recs, 1, 1, 'mc-gated-2')
-        recs = c05.mc_edge(run, 'g2', N=3, P=1, WD=1, shapes=['Reg', 'Not'], rvs=[0, 1], gated=True,
-                           invecs=[[0], [1]], cycles=2, maxn=1, mod=8)
-        c05.replay_records(run, recs, 1, 1, 'mc-gated-3')
-        part_b(run, 600, 14)
+        with run.stage('g1'):
+            recs = c05.mc_edge(run, 'g1', N=2, P=1, WD=1, shapes=['Reg', 'RegE', 'Not'], rvs=[0, 1], gated=True,
+                               invecs=[[0], [1]], cycles=3, maxn=2, mod=8)
+            c05.replay_records(run, recs, 1, 1, 'mc-gated-2')
+        with run.stage('g2'):
+            recs = c05.mc_edge(run, 'g2', N=3, P=1, WD=1, shapes=['Reg', 'Not'], rvs=[0], gated=True,
+                               invecs=[[0], [1]], cycles=2, maxn=1, mod=12)
+            c05.replay_records(run, recs, 1, 1, 'mc-gated-3')
+        with run.stage('b'):
+            part_b(run, 600, 14)
     else:
         recs = c05.mc_edge(run, 'g1', N=2, P=2, WD=2, shapes=['Reg', 'RegE', 'Not'], rvs=[0, 1], gated=True,
                            invecs=[[0, 0], [1, 2], [2, 0], [0, 3]], cycles=3, maxn=2, mod=16)
